@@ -40,12 +40,19 @@ fn mapping(start: usize, size: usize, perms: MMPermissions) -> MappingInfo {
 /// a stack pointer within 1 MiB of the top of the address space and no stack-like mapping above it.
 #[test]
 fn c02_get_stack_info_top_of_address_space() {
-    let d = bare_dumper(vec![mapping(0x1000, 0x1000, MMPermissions::READ | MMPermissions::WRITE)]);
     for sp in [usize::MAX, usize::MAX - 8, usize::MAX - 0xfff, usize::MAX - 0x8_0000] {
-        let r = std::panic::catch_unwind(|| d.get_stack_info(sp).map_err(|_| ()));
-        match r {
-            Ok(res) => assert!(res.is_err(), "no mapping can contain sp={sp:#x}"),
-            Err(_) => panic!("get_stack_info({sp:#x}) panicked instead of returning an error"),
+        // in a thread with a time bound: a regression here is an endless loop, not only a panic
+        let (tx, rx) = std::sync::mpsc::channel();
+        std::thread::spawn(move || {
+            let d = bare_dumper(vec![mapping(0x1000, 0x1000, MMPermissions::READ | MMPermissions::WRITE)]);
+            let r = std::panic::catch_unwind(std::panic::AssertUnwindSafe(|| d.get_stack_info(sp).map_err(|_| ())));
+            std::mem::forget(d);
+            let _ = tx.send(r);
+        });
+        match rx.recv_timeout(std::time::Duration::from_secs(5)) {
+            Ok(Ok(res)) => assert!(res.is_err(), "no mapping can contain sp={sp:#x}"),
+            Ok(Err(_)) => panic!("get_stack_info({sp:#x}) panicked instead of returning an error"),
+            Err(_) => panic!("get_stack_info({sp:#x}) did not return within 5 s"),
         }
     }
 }
